@@ -1041,16 +1041,16 @@ def resolve_join_variables(input_variables_map, join_variables_map, variable_pai
             raise RbqlParsingError(ambiguous_error_msg.format(join_var_2))
         if join_var_2 in input_variables_map:
             join_var_1, join_var_2 = join_var_2, join_var_1
-        if join_var_1 in ['NR', 'a.NR', 'aNR']:
-            lhs_key_index = -1
-        elif join_var_1 in input_variables_map:
+        if join_var_1 in input_variables_map:
             lhs_key_index = input_variables_map.get(join_var_1).index
+        elif join_var_1 in ['NR', 'a.NR', 'aNR']:
+            lhs_key_index = -1
         else:
             raise RbqlParsingError('Unable to parse JOIN expression: Input table does not have field "{}"\n{}'.format(join_var_1, valid_join_syntax_msg)) # UT JSON
-        if join_var_2 in ['bNR', 'b.NR']:
-            rhs_key_index = -1
-        elif join_var_2 in join_variables_map:
+        if join_var_2 in join_variables_map:
             rhs_key_index = join_variables_map.get(join_var_2).index
+        elif join_var_2 in ['bNR', 'b.NR']:
+            rhs_key_index = -1
         else:
             raise RbqlParsingError('Unable to parse JOIN expression: Join table does not have field "{}"\n{}'.format(join_var_2, valid_join_syntax_msg)) # UT JSON
         lhs_join_var_expression = 'NR' if lhs_key_index == -1 else 'safe_join_get(record_a, {})'.format(lhs_key_index)
